@@ -130,6 +130,7 @@ ATOMS = [
     ('posoargs(end=c)', 'modifiers.posoargs(end="c")'),
     ('kwoargs(a)', 'modifiers.kwoargs("a")'),
     ('kwoargs(start=c)', 'modifiers.kwoargs(start="c")'),
+    ('annotate(R)', 'modifiers.annotate("R")'),     # return annotation only (same value as annotate(R,c))
 ]
 ATOM_EXPR = dict(ATOMS)
 ATOM_NAMES = [a for a, _ in ATOMS]
